@@ -69,6 +69,12 @@ def rand_limits(rnd, p):
     return lim
 
 
+def _flag(rnd, p):
+    """a boolean parameter as users pass it: mostly a python bool, now and then the int 0 / 1 (e.g. read from a table)"""
+    f = rnd.random() < p
+    return int(f) if rnd.random() < 0.2 else f
+
+
 P_ZERO_OUT = 0.06
 
 
@@ -97,15 +103,19 @@ def comp_spec(rnd, kind, name, pol=1, p_table=0.0, p_limits=0.0, negsign=True):
     elif kind == "RectM":
         args = {"rs": sg(ch([0.0, 0.02])), "ig": maybe_table(rnd, "ig", 0.0, 2e-4, sg(ch([0.0, 1e-4])), p_table), "iq": sg(ch([0.0, 1e-5])), "rt": sg(ch([0.0, 5.0]))}
     elif kind == "PLoad":
-        args = {"pwr": sg(ch([0.01, 0.1, 0.05])), "pwrs": sg(ch([0.0, 1e-4])), "rt": sg(ch([0.0, 10.0])), "loss": rnd.random() < 0.3}
+        args = {"pwr": sg(ch([0.01, 0.1, 0.05])), "pwrs": sg(ch([0.0, 1e-4])), "rt": sg(ch([0.0, 10.0])), "loss": _flag(rnd, 0.3)}
     elif kind == "ILoad":
-        args = {"ii": sg(ch([0.001, 0.02, 0.01])), "iis": sg(ch([0.0, 1e-5])), "rt": sg(ch([0.0, 10.0])), "loss": rnd.random() < 0.3}
+        args = {"ii": sg(ch([0.001, 0.02, 0.01])), "iis": sg(ch([0.0, 1e-5])), "rt": sg(ch([0.0, 10.0])), "loss": _flag(rnd, 0.3)}
     elif kind == "RLoad":
-        args = {"rs": sg(ch([100.0, 1000.0, 470.0])), "rt": sg(ch([0.0, 10.0])), "loss": rnd.random() < 0.3}
+        args = {"rs": sg(ch([100.0, 1000.0, 470.0])), "rt": sg(ch([0.0, 10.0])), "loss": _flag(rnd, 0.3)}
     else:
         raise KeyError(kind)
     # live-but-0-V output: a regulator whose drop-out voltage exceeds most supplies of the generator's range (on, yet delivering 0 V).
     # Converters set to 0 V are outside the properties' domain ("regulated outputs non-zero", C01) and are not generated.
+    if kind == "LinReg" and rnd.random() < 0.12:
+        # the deprecated iq keyword (scalar or table keyed 'iq') instead of ig
+        ig = args.pop("ig")
+        args["iq"] = {("iq" if k_ == "ig" else k_): v_ for k_, v_ in ig.items()} if isinstance(ig, dict) else ig
     if kind == "LinReg" and rnd.random() < P_ZERO_OUT: args["vo"], args["vdrop"] = math.copysign(24.0, args["vo"]), 20.0
     lim = rand_limits(rnd, p_limits)
     if lim is not None: args["limits"] = lim
@@ -154,18 +164,28 @@ def random_system(rnd, **opts):
         par = rnd.choice(cand)
         kind = rnd.choice(LEAF if leaf else INNER)
         name = "%s%d" % (kind, k)
-        if rnd.random() < o.get("p_names", 0.15): name = rnd.choice(["System %s%d", "Sys.%s-%d", "%s %d (main)", "Subsys_%s%d"]) % (kind, k)
+        if rnd.random() < o.get("p_names", 0.15): name = rnd.choice(["System %s%d", "Sys.%s-%d", "%s %d (main)", "Subsys_%s%d", "Subsystem %s%d", "System total %s%d"]) % (kind, k)
         sp = comp_spec(rnd, kind, name, pol, o["p_table"], o["p_limits"], o["negsign"])
         rail = rail_for(name, kind)
         pref = par[3] if (par[3] and rnd.random() < o["p_byrail"]) else par[0]
         ops.append({"op": "add_comp", "parent": pref, "comp": sp, "group": group_for(), "rail": rail})
         nodes.append((name, kind, par[2] + 1, rail))
     # every non-leaf end gets at least a chance of a load so currents flow
-    if rnd.random() < o["p_phases"]:
+    r_ph = rnd.random()
+    if r_ph >= o["p_phases"] and rnd.random() < o.get("p_orphan_conf", 0.08):
+        # component phase configurations although the system has no load phases (set before the plan, or after it was cleared)
+        for (name, kind, _, _) in nodes:
+            if rnd.random() < 0.6: continue
+            if kind in PHASED_KINDS: conf = rnd.choice([["a"], ["a", "b"]])
+            elif kind == "PLoad": conf = {"a": 0.03}
+            elif kind == "ILoad": conf = {"a": 0.004}
+            else: continue
+            ops.append({"op": "set_comp_phases", "name": name, "conf": conf})
+    if r_ph < o["p_phases"]:
         phases = rnd.choice([{"a": 10.0, "b": 1.0}, {"a": 10.0, "b": 1.0, "c": 100.0}, {"sleep": 3600.0, "rx": 2.5, "tx": 0.5}])
         r_ = rnd.random()
         if r_ < o.get("p_oddphases", 0.12) / 2: phases = rnd.choice([{"a": 10.0, "b": 0.0, "c": 5.0}, {"on": 60, "off": 0}])          # a phase switched out of the duty cycle (duration 0), int durations
-        elif r_ < o.get("p_oddphases", 0.12): phases = rnd.choice([{"sleep": 302400.0, "tx": 90.0}, {"a": 86400.0, "b": 86400.0}])       # one load cycle longer than a day
+        elif r_ < o.get("p_oddphases", 0.12): phases = rnd.choice([{"sleep": 302400.0, "tx": 90.0}, {"a": 86400.0, "b": 86400.0}, {"tx": 2.0, "TX": 5.0, "Tx": 1.0}])       # one load cycle longer than a day; names differing by case only
         ops.append({"op": "set_sys_phases", "phases": phases})
         pn = list(phases)
         ghost = o.get("p_ghost", 0.12)
